@@ -94,7 +94,7 @@ static inline void v_case(uint64_t h) { v_evals++; if (h) v_set_insert(h); }
 static int v_viol_n = 0;
 static inline void v_hex(char* out, size_t cap, const void* p, size_t n) {
     const uint8_t* b = (const uint8_t*)p; size_t o = 0;
-    for (size_t i = 0; i < n && o + 3 < cap; i++) o += (size_t)snprintf(out + o, cap - o, "%02x", b[i]);
+    for (size_t i = 0; i < n && o + 2 < cap; i++) o += (size_t)snprintf(out + o, cap - o, "%02x", b[i]);
     if (cap) out[o < cap ? o : cap - 1] = 0;
 }
 static inline void v_viol(const char* key, const char* fmt, ...) {
